@@ -182,6 +182,18 @@ func accessorOracle(c *Ctx, raw []byte) {
 	}
 }
 
+// version-0 reserved namespaces that are not the two compact ones (intermediate state roots, two unassigned
+// values, primary reserved padding)
+var reservedSparseNs = func() [][]byte {
+	var out [][]byte
+	for _, last := range []byte{0x02, 0x03, 0x05, 0xff} {
+		ns := make([]byte, 29)
+		ns[28] = last
+		out = append(out, ns)
+	}
+	return out
+}()
+
 func genC10(c *Ctx) {
 	c.rule = "every share emitted for blobs (hot lengths x versions), compact sequences (offset-covering tx lists) and padding, byte-compared with an independent encoder (Go) and with the Coq closed-form spec; accessors on emitted shares and on crafted 512-byte strings (all 256 info bytes x reserved-byte values x namespaces); non-trivial = distinct emitted sequence of more than one share, or distinct crafted share"
 	r := c.rng
@@ -195,11 +207,17 @@ func genC10(c *Ctx) {
 	for _, l := range lens {
 		for ver := uint8(0); ver <= 1; ver++ {
 			g := genBlob{ns: pick(r, nss), ver: ver, data: r.Bytes(l)}
+			if r.Intn(5) == 0 {
+				// NewBlob also accepts the protocol's own version-0 namespaces that are not compact:
+				// the share format of such a blob is the sparse one all the same
+				g.ns = pick(r, reservedSparseNs)
+				c.count("blob_in_reserved_namespace")
+			}
 			if ver == 1 {
 				g.signer = r.Bytes(20)
 			}
 			shs, err := g.blob().ToShares()
-			wit := map[string]any{"version": int(ver), "data_len": l}
+			wit := map[string]any{"version": int(ver), "data_len": l, "ns_last_byte": int(g.ns[28])}
 			if c.check(err == nil, "Blob.ToShares", "error", wit) {
 				c.check(eqShares(refSparse(g.ns, ver, g.signer, g.data), shs), "SparseShareSplitter.Write", "shares differ from the specified encoding", wit)
 				for _, s := range shs {
@@ -416,10 +434,132 @@ func genC08(c *Ctx) {
 			desc = append(desc, fmt.Sprintf("v%d:%d", g.ver, len(g.data)))
 		}
 		c.check(res == want, "ParseBlobs", "parsed blobs differ from the blobs written", map[string]any{"blobs": desc, "items": itemsShape(items)})
+		// the same sequence written from blobs whose namespace, signer and data are views into ONE buffer
+		// (spare capacity behind each), parsed, and the PARSED blobs (views of the shares) written and parsed
+		// again: both generations must give back the original values
+		if got, gen := rewriteGenerations(blobs, items); got != want {
+			c.check(false, "SparseShareSplitter.Write", "blobs written from shared buffers / re-written after parsing come back different",
+				map[string]any{"blobs": desc, "items": itemsShape(items), "generation": gen})
+		} else {
+			c.check(true, "", "", nil)
+		}
 		if nontriv {
 			c.mark(strings.Join(desc, " ") + " " + itemsShape(items))
 		}
 	}
+}
+
+// rewriteGenerations: generation 1 writes blobs whose fields are carved from one buffer; generation 2
+// writes the blobs returned by ParseBlobs on generation 1's shares.  Returns the parse result of the
+// last generation that differs from the expectation (or of generation 2) and its number.
+func rewriteGenerations(blobs []genBlob, items []string) (string, int) {
+	total := 0
+	for _, g := range blobs {
+		total += len(g.ns) + len(g.signer) + len(g.data)
+	}
+	// layout: all signers back to back, then all namespaces, then all data - so that whatever a writer
+	// appends behind one field lands in another blob's field
+	arena := make([]byte, 0, total+4096)
+	sOff := make([][2]int, len(blobs))
+	nOff := make([][2]int, len(blobs))
+	dOff := make([][2]int, len(blobs))
+	for i, g := range blobs {
+		sOff[i][0] = len(arena)
+		arena = append(arena, g.signer...)
+		sOff[i][1] = len(arena)
+	}
+	for i, g := range blobs {
+		nOff[i][0] = len(arena)
+		arena = append(arena, g.ns...)
+		nOff[i][1] = len(arena)
+	}
+	for i, g := range blobs {
+		dOff[i][0] = len(arena)
+		arena = append(arena, g.data...)
+		dOff[i][1] = len(arena)
+	}
+	var first []*share.Blob
+	for i, g := range blobs {
+		var signer []byte
+		if g.signer != nil {
+			signer = arena[sOff[i][0]:sOff[i][1]]
+		}
+		ns, err := share.NewNamespaceFromBytes(arena[nOff[i][0]:nOff[i][1]])
+		if err != nil {
+			return "err-ns", 1
+		}
+		bl, err := share.NewBlob(ns, arena[dOff[i][0]:dOff[i][1]], g.ver, signer)
+		if err != nil {
+			return "err-blob", 1
+		}
+		first = append(first, bl)
+	}
+	want := "ok:" + showList(func(g genBlob) string { return g.spec() }, blobs)
+	render := func(bs []*share.Blob) ([]share.Share, bool) {
+		var acc []share.Share
+		var sp *share.SparseShareSplitter
+		flush := func() {
+			if sp != nil {
+				acc = append(acc, sp.Export()...)
+				sp = nil
+			}
+		}
+		k := 0
+		for _, it := range items {
+			switch it[0] {
+			case 'b':
+				if sp == nil {
+					sp = share.NewSparseShareSplitter()
+				}
+				if err := sp.Write(bs[k]); err != nil {
+					return nil, false
+				}
+				k++
+			case 'n':
+				if sp == nil {
+					sp = share.NewSparseShareSplitter()
+				}
+				if err := sp.WriteNamespacePaddingShares(atoi(it[2:])); err != nil {
+					return nil, false
+				}
+			case 'r':
+				flush()
+				acc = append(acc, share.ReservedPaddingShares(atoi(it[2:]))...)
+			case 't':
+				flush()
+				acc = append(acc, share.TailPaddingShares(atoi(it[2:]))...)
+			}
+		}
+		flush()
+		return acc, true
+	}
+	show := func(bs []*share.Blob) string {
+		return "ok:" + showList(func(b *share.Blob) string {
+			return blobSpec(b.Namespace().Bytes(), b.ShareVersion(), b.Signer(), b.Data())
+		}, bs)
+	}
+	cur := first
+	res := ""
+	for gen := 1; gen <= 2; gen++ {
+		shs, ok := render(cur)
+		if !ok {
+			return "err-write", gen
+		}
+		parsed, err := share.ParseBlobs(shs)
+		if err != nil {
+			return "err-parse", gen
+		}
+		res = show(parsed)
+		if res != want {
+			return res, gen
+		}
+		// the blobs handed to the writer must not have been changed by it either
+		if show(cur) != want {
+			return "input-modified:" + show(cur), gen
+		}
+		cur = parsed
+	}
+	return res, 2
 }
 
 func itemsShape(items []string) string {
